@@ -294,6 +294,47 @@ def cli_work(task):
     return acc
 
 
+def check_instance_reuse(seq1, seq2, acc):
+    """ONE NameMolType instance names two systems in turn; the second naming is judged on its own."""
+    import vermouth
+    case = {'layer': 'reuse', 'first': list(seq1), 'second': list(seq2)}
+    processor = vermouth.NameMolType(deduplicate=True)
+    systems = []
+    for seq in (seq1, seq2):
+        system = vermouth.System()
+        for idx, shape in enumerate(seq):
+            system.add_molecule(make(shape, idx))
+        systems.append(system)
+    try:
+        for system in systems:
+            processor.run_system(system)
+    except Exception as err:   # pylint: disable=broad-except
+        acc.case(outcome='exc')
+        acc.violation('c03:exception', 'naming raised %r' % (err,), case)
+        return
+    system = systems[1]
+    names = [mol.meta['moltype'] for mol in system.molecules]
+    by_name = {}
+    for mol, name in zip(system.molecules, names):
+        by_name.setdefault(name, []).append(mol)
+    acc.case(nontrivial=len(set(names)) < len(names), outcome=('reuse', tuple(names)),
+             sample=dict(case, names=names) if acc.states % 101 == 0 else None)
+    for name, mols in by_name.items():
+        if len({itp_body(mol, name) for mol in mols}) > 1:
+            acc.violation('c03:shared-name-different-topology(instance-reuse)',
+                          'after naming %r, the same NameMolType instance gives %d molecules of %r the name %s although their written topologies differ' % (
+                              list(seq1), len(mols), list(seq2), name), case)
+            return
+
+
+def reuse_work(task):
+    common.bind_repo()
+    acc = Acc()
+    for seq1, seq2 in task:
+        check_instance_reuse(seq1, seq2, acc)
+    return acc
+
+
 def work(task):
     common.bind_repo()
     acc = Acc()
@@ -319,6 +360,12 @@ def run(ctx):
     for part in common.pmap(work, list(common.chunked(cases, max(1, len(cases) // 64)))):
         acc += part
     ctx.layer('written-files-agree', acc)
+    short = ['P', 'Q', 'S', 'X']
+    pairs = [(a, b) for n1 in (1, 2) for a in itertools.product(short, repeat=n1) for n2 in (1, 2, 3) for b in itertools.product(short, repeat=n2)]
+    acc = Acc()
+    for part in common.pmap(reuse_work, list(common.chunked(pairs, max(1, len(pairs) // 32)))):
+        acc += part
+    ctx.layer('instance-reuse', acc)
     # every sequence of <= 3 chains over three kinds through the real program, with and without -sep / -merge
     cli_cases = []
     for m in (1, 2, 3):
@@ -336,6 +383,9 @@ def replay(case):
     acc = Acc()
     base = tempfile.mkdtemp(prefix='verif_c03r_')
     try:
+        if case.get('layer') == 'reuse':
+            check_instance_reuse(tuple(case['first']), tuple(case['second']), acc)
+            return [(s, d) for s, d, _ in acc.violations]
         if case.get('layer') == 'cli':
             check_cli(tuple(case['chains']), list(case['options']), acc, base)
             return [(s, d) for s, d, _ in acc.violations]
